@@ -166,6 +166,7 @@ type Result struct {
 	Distinct   []string       // keys of the distinct non-trivial things this case reached (see each scenario's rule)
 	Ops        int            // operations / invocations executed
 	Steps      int            // scheduler steps
+	Pinned     any            // optional: the same case with the violating fault made explicit (starting point for shrinking)
 }
 
 func newResult() *Result { return &Result{Counters: map[string]int{}} }
